@@ -7,6 +7,7 @@ import (
 	"sort"
 
 	"verif/internal/dsl"
+	"verif/spec"
 )
 
 // Case is one (file term, configuration term, layout) tuple.
@@ -464,4 +465,117 @@ func F4() []*Case {
 	}}
 	out = append(out, &Case{Label: "F4/oneofs", Family: "F4", Tags: map[string]string{"card": "oneof", "vt": "three-groups", "class": "oneof", "pos": "P0"}, File: newFile(three), Cfg: BaseConfig("Root")})
 	return out
+}
+
+// AllPaths lists the option paths of every attribute (at every depth) of the selected roots.
+func AllPaths(f *dsl.File, c *dsl.Config) []string {
+	seen := map[string]bool{}
+	var out []string
+	var walk func(m *spec.Msg)
+	walk = func(m *spec.Msg) {
+		for _, a := range m.Attrs {
+			if !a.Placeholder && !seen[a.Path] {
+				seen[a.Path] = true
+				out = append(out, a.Path)
+			}
+			if a.Msg != nil {
+				walk(a.Msg)
+			}
+		}
+	}
+	for _, r := range c.Types {
+		if s, err := dsl.BuildSpec(f, c, r); err == nil {
+			walk(s)
+		}
+	}
+	sort.Strings(out)
+	return out
+}
+
+// Variant derives a configuration variant of a case: sort on/off, package
+// layout, and a per-field option mix ("none", "flags", "names").
+func Variant(c *Case, sortOn bool, separate bool, mix string) *Case {
+	n := *c
+	n.Cfg = c.Cfg.Clone()
+	fc := *c.File // Finalize sets Pkg/Name per case; the message terms are shared read-only
+	n.File = &fc
+	n.Tags = map[string]string{}
+	for k, v := range c.Tags {
+		n.Tags[k] = v
+	}
+	n.Cfg.Sort = sortOn
+	n.Separate = separate
+	n.Label = fmt.Sprintf("%s|sort=%v|sep=%v|mix=%s", c.Label, sortOn, separate, mix)
+	n.Tags["sort"] = fmt.Sprint(sortOn)
+	n.Tags["layout"] = map[bool]string{false: "same", true: "separate"}[separate]
+	n.Tags["mix"] = mix
+	paths := AllPaths(c.File, c.Cfg)
+	switch mix {
+	case "none":
+	case "flags":
+		n.Cfg.Required = append(n.Cfg.Required, paths...)
+		n.Cfg.Computed = append(n.Cfg.Computed, paths...)
+		n.Cfg.Sensitive = append(n.Cfg.Sensitive, paths...)
+		n.Cfg.Validators = map[string][]string{}
+		n.Cfg.PlanModifiers = map[string][]string{}
+		for i, p := range paths {
+			n.Cfg.Validators[p] = []string{fmt.Sprintf("%s.V(%d)", dsl.TFX, i)}
+			n.Cfg.PlanModifiers[p] = []string{fmt.Sprintf("%s.PM(%d)", dsl.TFX, i), fmt.Sprintf("%s.PM(%d)", dsl.TFX, i+100)}
+		}
+		n.Cfg.UseStateForUnknown = true
+	case "names":
+		n.Cfg.NameOverrides = map[string]string{}
+		for i, p := range paths {
+			n.Cfg.NameOverrides[p] = fmt.Sprintf("ovr_%d", i)
+		}
+	default:
+		panic(mix)
+	}
+	return &n
+}
+
+// F5File is the multi-root file: four roots sharing nested types, Shared occurring at many paths.
+func F5File() *dsl.File {
+	f := func(name string, num int32, t dsl.T) *dsl.Field { return &dsl.Field{Name: name, Num: num, T: t} }
+	msg := func(name string, num int32, ref string) *dsl.Field {
+		return &dsl.Field{Name: name, Num: num, T: dsl.Msg, Ref: ref}
+	}
+	alpha := &dsl.Message{Name: "Alpha", Comment: " Alpha is the first root", Fields: []*dsl.Field{
+		{Name: "Name", Num: 1, T: dsl.String, Comment: " Name of alpha"},
+		msg("Meta", 2, "Shared"),
+		{Name: "Items", Num: 3, T: dsl.Msg, Ref: "Shared", Card: dsl.Repeated, Nullable: dsl.B(false)},
+	}}
+	beta := &dsl.Message{Name: "Beta", Fields: []*dsl.Field{
+		{Name: "Meta", Num: 1, T: dsl.Msg, Ref: "Shared", Nullable: dsl.B(false)},
+		{Name: "ByKey", Num: 2, T: dsl.Msg, Ref: "Shared", Card: dsl.Map},
+		f("Count", 3, dsl.Int64),
+	}}
+	gamma := &dsl.Message{Name: "Gamma", Oneofs: []string{"Kind"}, Fields: []*dsl.Field{
+		{Name: "KS", Num: 1, T: dsl.Msg, Ref: "Shared", Oneof: "Kind"},
+		{Name: "KT", Num: 2, T: dsl.String, Oneof: "Kind"},
+		msg("Deep", 3, "Deep"),
+	}}
+	delta := &dsl.Message{Name: "Delta", Fields: []*dsl.Field{
+		f("Only", 1, dsl.String),
+		msg("Nested", 2, "Alpha"),
+	}}
+	shared := &dsl.Message{Name: "Shared", Comment: " Shared is used everywhere", Fields: []*dsl.Field{
+		{Name: "ID", Num: 1, T: dsl.String, Comment: " ID of the thing"},
+		f("Label", 2, dsl.String),
+		msg("Tiny", 3, "Tiny"),
+	}}
+	tiny := &dsl.Message{Name: "Tiny", Fields: []*dsl.Field{f("On", 1, dsl.Bool), f("N", 2, dsl.Int32)}}
+	deep := &dsl.Message{Name: "Deep", Fields: []*dsl.Field{msg("Inner", 1, "Shared"), {Name: "Tags", Num: 2, T: dsl.String, Card: dsl.Repeated}}}
+	return &dsl.File{GettersOff: true, Messages: []*dsl.Message{alpha, beta, gamma, delta, shared, tiny, deep}}
+}
+
+// F5Roots are the selectable roots of F5File.
+var F5Roots = []string{"Alpha", "Beta", "Gamma", "Delta"}
+
+// F5 is the multi-root family with all roots selected.
+func F5() []*Case {
+	return []*Case{{
+		Label: "F5/all", Family: "F5", Tags: map[string]string{"card": "mixed", "vt": "multiroot", "class": "multiroot", "pos": "deep"},
+		File: F5File(), Cfg: BaseConfig(F5Roots...),
+	}}
 }
